@@ -40,3 +40,5 @@ func (r *RNG) PickStr(ss []string) string { return ss[r.Intn(len(ss))] }
 
 // Fork derives an independent stream (so case i does not depend on how many draws case i-1 made)
 func (r *RNG) Fork(i uint64) *RNG { return NewRNG(r.s ^ (i+1)*0xd1342543de82ef95) }
+
+func (r *RNG) PickInt(xs []int) int { return xs[r.Intn(len(xs))] }
